@@ -269,3 +269,15 @@ void sched_pair_matrix(const Scheduler* s, long out[8][8])
 }
 
 }  // namespace sim
+
+// ---- sanitizer report counter (uninstrumented on purpose, see context.cpp) ----------------------------------
+namespace sim {
+static volatile long g_san_reports = 0;
+long sanitizer_reports() { return __atomic_load_n(&g_san_reports, __ATOMIC_RELAXED); }
+void sanitizer_reports_reset() { __atomic_store_n(&g_san_reports, 0, __ATOMIC_RELAXED); }
+}  // namespace sim
+extern "C" {
+__attribute__((used, visibility("default"))) void __asan_on_error() { __atomic_fetch_add(&sim::g_san_reports, 1, __ATOMIC_RELAXED); }
+__attribute__((used, visibility("default"))) void __tsan_on_report(void*) { __atomic_fetch_add(&sim::g_san_reports, 1, __ATOMIC_RELAXED); }
+__attribute__((used, visibility("default"))) void __ubsan_on_report() { __atomic_fetch_add(&sim::g_san_reports, 1, __ATOMIC_RELAXED); }
+}
